@@ -146,12 +146,36 @@ func (c *ctx) c16run(cmds []c16cmd, ntx int, buffered bool) {
 		}
 		zeros[t] = z
 	}
+	// direct calls of the emulator run under a guard: one that does not return (a lock that is never released) is
+	// reported as an impossible value, and the emulator is not called again
+	stuckEmu := false
 	probe := func(t xsens.DataType) int64 {
-		p, err := emu.MarshalMessage(zeros[t], t)
+		if stuckEmu {
+			return -2
+		}
+		var p []byte
+		var err error
+		if !guarded(func() { p, err = emu.MarshalMessage(zeros[t], t) }) {
+			stuckEmu = true
+			c.dist["emulator-call-did-not-return"]++
+			return -2
+		}
 		if err != nil || len(p) < 2 {
 			return -1
 		}
 		return int64(xsens.MTData2Packet(p).Identifier().Uint16())
+	}
+	lastID := func() xsens.MessageIdentifier {
+		if stuckEmu {
+			return 0xEE
+		}
+		var m xsens.MessageIdentifier
+		if !guarded(func() { m = emu.LastMessageIdentifier() }) {
+			stuckEmu = true
+			c.dist["emulator-call-did-not-return"]++
+			return 0xEE
+		}
+		return m
 	}
 
 	var cmdTerms, obsTerms []string
@@ -177,7 +201,7 @@ func (c *ctx) c16run(cmds []c16cmd, ntx int, buffered bool) {
 		select {
 		case r := <-rc:
 			err = r.err
-			mode, modeTaken = emu.LastMessageIdentifier(), true
+			mode, modeTaken = lastID(), true
 			// observe at once, the types the command was about first
 			if cm.kind == 1 {
 				for _, s := range cm.cfg {
@@ -194,7 +218,7 @@ func (c *ctx) c16run(cmds []c16cmd, ntx int, buffered bool) {
 			c.dist["command-timeouts"]++
 		}
 		if !modeTaken {
-			mode = emu.LastMessageIdentifier()
+			mode = lastID()
 		}
 		var ids []string
 		for _, t := range probeTypes {
@@ -217,18 +241,18 @@ func (c *ctx) c16run(cmds []c16cmd, ntx int, buffered bool) {
 		}
 		cmdTerms = append(cmdTerms, tup(zs(int64(cm.kind)), cfgT))
 		obsTerms = append(obsTerms, tup(cbool(err == nil), zs(int64(mode)), "["+strings.Join(ids, ";")+"]"))
-		if err != nil {
+		if err != nil || stuckEmu {
 			break
 		}
 	}
 
 	// data phase
 	var txTerms, rxTerms []string
-	if len(obsTerms) == len(cmds) {
+	if len(obsTerms) == len(cmds) && !stuckEmu {
 		expect := make(chan bool, ntx+1)
 		type txr struct{ term string }
 		txc := make(chan []string, 1)
-		measuring := emu.LastMessageIdentifier() == xsens.MessageIdentifierMTData2
+		measuring := lastID() == xsens.MessageIdentifierMTData2
 		go func() {
 			var terms []string
 			for k := 0; k < ntx; k++ {
